@@ -408,19 +408,4 @@ def decimalAux : Nat → Nat → List Nat
 
 def decimal (n : Nat) : List Nat := decimalAux n n
 
-/-- well-nested event sequences: the element stack `ns` (innermost first) is closed exactly by the
-rest of the sequence; `bad` never occurs -/
-def balanced : List Name → List XmlEvent → Bool
-  | ns, [] => ns.isEmpty
-  | ns, .start n _ :: r => balanced (n :: ns) r
-  | ns, .empty _ _ :: r => balanced ns r
-  | [], .end_ _ :: _ => false
-  | m :: ns, .end_ n :: r => decide (m = n) && balanced ns r
-  | ns, .text :: r => balanced ns r
-  | ns, .other :: r => balanced ns r
-  | _, .bad :: _ => false
-
-/-- a well-formed XML event sequence: every start tag is closed by the matching end tag -/
-def WellNested (evs : List XmlEvent) : Prop := balanced [] evs = true
-
 end Grcov.Jacoco.Spec
